@@ -431,8 +431,9 @@ pub fn gen_unused_program(r: &mut Rng) -> (String, std::collections::BTreeMap<&'
         body.push_str("local table = { insert = print }\n");
     }
     let nv = r.range(1, 2);
+    let tables_only = r.chance(1, 3);
     for v in names.iter().take(nv) {
-        let init = *r.pick(&["{}", "{}", "{ 1 }", "{ name = x }", "1", "f()", "({})", "nil"]);
+        let init = if tables_only { *r.pick(&["{}", "{ 1 }", "{ name = x }"]) } else { *r.pick(&["{}", "{}", "{ 1 }", "{ name = x }", "1", "f()", "({})", "nil"]) };
         body.push_str(&format!("local {} = {}\n", v, init));
     }
     for _ in 0..r.range(1, 4) {
@@ -468,6 +469,16 @@ pub fn gen_unused_program(r: &mut Rng) -> (String, std::collections::BTreeMap<&'
         };
         body.push_str(&line);
         body.push('\n');
+    }
+    if r.chance(1, 4) {
+        // one call whose arguments are observed differently (write-only first argument, plain reads after it)
+        let (a, b) = if nv > 1 && r.chance(1, 2) { (names[0], names[1]) } else if nv > 1 { (names[1], names[0]) } else { (names[0], names[0]) };
+        body.push_str(&match r.below(4) {
+            0 => format!("table.insert({a}, {b})\n"),
+            1 => format!("table.insert({a}, 1, {b})\n"),
+            2 => format!("table.insert({a}, {b}, {a})\n"),
+            _ => format!("rawset({a}, {b}, {b})\n"),
+        });
     }
     if r.chance(1, 5) {
         body.push_str(&format!("return {}\n", names[r.below(nv)]));
